@@ -139,8 +139,14 @@ class C03(Prop):
         world = {"zone": "UTC", "now": t0, "reported": reported}
         choice_log = []
         with clock.virtual_time(t0) as traveller:
+            # clock mode: "tick" makes every login read a unique second (a leaked reading is unmistakable);
+            # "frozen" keeps all logins of all instances inside one clock second (anything keyed by the
+            # timestamp alone collides); "mixed" advances only now and then
+            clock_mode = ("tick", "frozen", "mixed", "tick")[r.randrange(4)] if not case.get("exhaustive") else ("tick", "frozen")[r.randrange(2)]
+
             def on_write(spy, data):
-                traveller.shift(3)
+                if clock_mode == "tick" or (clock_mode == "mixed" and r.random() < 0.3):
+                    traveller.shift(3)
 
             clients = []
             for c in case["clients"]:
@@ -170,6 +176,7 @@ class C03(Prop):
                 self.dev.gate = None
                 for cl in clients:
                     await cl.close()
+        acc.count(f"clock_mode_{clock_mode}")
         self._judge(acc, case, clients, records, world, choice_log)
 
     async def _interleave(self, r, clients, run_client, choice_log, acc):
